@@ -123,4 +123,57 @@ def toPeer (target : Addr) (p : APeer) : Peer := (p.1, distSha target p.2)
 /-- the comparison `sort_by(|a, b| a.1.cmp(&b.1))` makes on two peers of an address-level list -/
 def leAddr (target : Addr) (a b : APeer) : Bool := decide (distSha target a.2 ≤ distSha target b.2)
 
+/-! ## The producer of every range bound: the `set_farthest_record_interval` arm of `SwarmDriver::run` -/
+
+/-- `libp2p::kad::K_VALUE` (third party, 20): `get_closest_k_value_local_peers` returns the node itself followed by its
+closest local peers, `K_VALUE` entries in all -/
+def kValue : Nat := 20
+
+/-- `SwarmDriver::estimate_network_size` -/
+def estimateNetworkSize (peersInNonFullBuckets numFullBuckets : Nat) : Nat :=
+  (peersInNonFullBuckets + 1) * 2 ^ numFullBuckets
+
+/-- `get_closest_k_value_local_peers` as distances to the node itself: `0` for the node, then its routing-table peers
+nearest first, `K_VALUE` in all -/
+def closestKSelfInclusive (table : List Peer) : List Peer := ((0, 0) :: sortByDist table).take kValue
+
+/-- the bound the interval arm computes (`none`: it `continue`s, the range stays as it was): `convDistOf p` is what
+`convert_distance_to_u256(&self_addr.distance(peer p))` evaluates to -/
+def deriveRange (convDistOf : Peer → Nat) (peersInNonFullBuckets numFullBuckets : Nat) (table : List Peer) : Option Nat :=
+  let est := estimateNetworkSize peersInNonFullBuckets numFullBuckets
+  if est ≤ rangeMinEstimateExclusive then none
+  else
+    let k := closestKSelfInclusive table
+    if k.length ≤ rangeMinListLenExclusive then none
+    else
+      match k[rangeNeighbourIndex]? with
+      | none => none
+      | some p => some (Nat.max ((SafeNet.Amount.U256 - 1) / est * rangeDensityFactor) (convDistOf p))
+
+/-! ## The storage challenge's closeness decisions (ant-node/src/node.rs) -/
+
+/-- `respond_x_closest_record_proof` for `difficulty ≠ 1`: the held chunk addresses (id, distance to the key) sorted by
+distance to the key, the first `min(difficulty, CLOSE_GROUP_SIZE)` answered for -/
+def respondClosest (held : List Peer) (difficulty : Nat) : List Peer :=
+  (sortByDist held).take (min difficulty challengeWorkloadCap)
+
+/-- `storage_challenge`, the challenger's choice of what is checked: with at least 50 held chunks, sorted by distance to
+the node itself (`bySelf`), the target is entry `index < n / 2` (the implementation's random choice, carried as a
+witness), and the expected answers are the `CLOSE_GROUP_SIZE` chunks nearest the target (`toTarget`: distance of a chunk
+id to the chosen target). `none`: not enough candidates / illegal index. -/
+def challengeTargets (bySelf : List Peer) (index : Nat) (toTarget : Nat → Nat → Nat) : Option (Nat × List Nat) :=
+  if bySelf.length < challengeMinCandidates then none
+  else if index ≥ bySelf.length / 2 then none
+  else
+    match (sortByDist bySelf)[index]? with
+    | none => none
+    | some t =>
+      some (t.1, ((sortByDist (bySelf.map (fun c => (c.1, toTarget t.1 c.1)))).take challengeDifficulty).map (·.1))
+
+/-- `storage_challenge`, who is challenged: the first `CLOSE_GROUP_SIZE` of the self-inclusive K list, the node itself
+skipped — `none` when fewer than `CLOSE_GROUP_SIZE` entries are known -/
+def challengedPeers (table : List Peer) : Option (List Peer) :=
+  let k := (closestKSelfInclusive table).take challengePeersTaken
+  if k.length < challengePeersTaken then none else some (k.filter (fun p => p.1 != 0))
+
 end SafeNet.Distance
